@@ -113,10 +113,10 @@ def s2(ctx, rep):
     for f in impls:
         cfg = cfg_of(f)
         # every assignment of a (trial_id, pos) result is guarded by self._is_promotable_trial(entry, ...)
-        res = [n for n in cfg.nodes if n.kind == "stmt" and isinstance(n.ast, ast.Assign) and isinstance(n.ast.value, ast.Tuple)
+        res = [n for n in cfg.nodes if n.kind == "stmt" and isinstance(n.ast, (ast.Assign, ast.Return)) and isinstance(n.ast.value, ast.Tuple)
                and len(n.ast.value.elts) == 2 and "trial_id" in U(n.ast.value.elts[0])]
         if not res:
-            raise AnchorError(f"{f.short}: no (trial_id, pos) result assignment")
+            raise AnchorError(f"{f.short}: no place where a (trial_id, pos) result is stored or returned")
         for n in res:
             ent = U(n.ast.value.elts[0]).split(".")[0]
             ok = ctx.has_fact(f, n.id, lambda a: a[0] == "truth" and a[2] is True and a[1].startswith("self._is_promotable_trial(" + ent))
@@ -249,9 +249,9 @@ def s4(ctx, rep):
     cg = cfg_of(g)
     lp = [n for n in cg.nodes if n.kind == "for"]
     ok = len(lp) == 1 and "enumerate(rung.data)" == U(lp[0].ast.iter)
-    res = [n.id for n in cg.nodes if n.kind == "stmt" and isinstance(n.ast, ast.Assign) and isinstance(n.ast.value, ast.Tuple)
+    res = [n.id for n in cg.nodes if n.kind == "stmt" and isinstance(n.ast, (ast.Assign, ast.Return)) and isinstance(n.ast.value, ast.Tuple)
            and len(n.ast.value.elts) == 2 and "trial_id" in U(n.ast.value.elts[0])]
-    ok = ok and bool(res) and cg.path([s for s, l in cg.succ[res[0]]], lp[0].id, skip_labels=("exc",)) is None
+    ok = ok and bool(res) and all(cg.path([s for s, l in cg.succ[r_]], lp[0].id, skip_labels=("exc",)) is None for r_ in res)
     rep.put(ok, "S4", "must_follow", "PromotionRungSystem._find_promotable_trial: first promotable entry in rank order (best first) wins", g, None, "")
     r = P.method("Rung", "__init__")
     ok = any(isinstance(x, ast.Call) and fn_name(x) == "SortedList" for x in walk_shallow(r.node))
@@ -277,7 +277,9 @@ def s5(ctx, rep, clause="S5"):
         l = c.left
         ok = isinstance(l, ast.BinOp) and isinstance(l.op, ast.Mult) and sname in (U(l.left), U(l.right)) and U(c.comparators[0]) == "0"
         other = (l.right if U(l.left) == sname else l.left) if ok else None
-        ok = ok and isinstance(other, ast.BinOp) and isinstance(other.op, ast.Sub) and U(other.left) == mname and U(other.right) == cut
+        from ..engine import deref
+        ok = ok and isinstance(other, ast.BinOp) and isinstance(other.op, ast.Sub) and U(other.right) == cut and \
+            (U(other.left) == mname or (isinstance(deref(f, other.left), ast.Attribute) and deref(f, other.left).attr == "metric_val"))
         # direction: min (k) : reject iff k*(m - c) < 0 ; must be "m > c" => k = -1 ; strictness: equality is not rejected
         ok = ok and isinstance(c.ops[0], ast.Lt) and k == -1
         why = f"`{U(c)}` with sign={k} under min"
@@ -384,20 +386,29 @@ def s2b(ctx, rep):
     cut = var_from_call(f, "quantile")
     if cut is None:
         raise AnchorError("_find_promotable_trial: cutoff = rung.quantile() not found")
-    rets = [n for n in cfg.nodes if n.kind == "stmt" and isinstance(n.ast, ast.Return)]
-    rv = [U(n.ast.value) for n in rets if isinstance(n.ast.value, ast.Name)]
-    early = [n.id for n in rets if isinstance(n.ast.value, ast.Constant) and n.ast.value.value is None]
-    require_guard(ctx, rep, "S2", f, "PromotionRungSystem._find_promotable_trial: 'nothing to promote' without a scan | no cutoff (fewer than two entries)", early,
-                  [(f"{cut} is None", lambda a: a[0] == "is" and a[1] == cut and a[3] is True)],
-                  "a rung with a cutoff is never scanned (nothing is ever promoted), or a rung without one is compared with None")
-    if len(set(rv)) == 1:
-        rej = [n.id for n in cfg.nodes if n.kind == "stmt" and isinstance(n.ast, ast.Assign) and U(n.ast.targets[0]) == rv[0]
-               and isinstance(n.ast.value, ast.Constant) and n.ast.value.value is None and not isinstance(n.ast.targets[0], ast.Tuple)
-               and any(p_.kind == "test" for p_ in cfg.nodes) and n.ast.lineno > max([l.ast.lineno for l in cfg.nodes if l.kind == "for"] or [0])]
-        require_guard(ctx, rep, "S2", f, "PromotionRungSystem._find_promotable_trial: the best unpromoted entry is rejected | it is on the wrong side of the cutoff", rej,
-                      [("sign * (metric - cutoff) < 0", lambda a: a[0] == "lt" and a[2] == "0" and cut in a[1]),
-                       ("a candidate was found", lambda a: a[0] == "is" and a[1] == rv[0] and a[3] is False)],
-                      "the best paused trial is rejected when it should be promoted (or promoted although it is worse than the quantile)")
+    # the places that make the result None, whichever way the function is written (a result variable, or direct returns)
+    from .common import result_sites
+    heads = [l.id for l in cfg.nodes if l.kind == "for"]
+    none_sites = [s_ for s_ in result_sites(ctx, f) if isinstance(s_[1], ast.Constant) and s_[1].value is None]
+    no_cut = lambda a: a[0] == "is" and a[1] == cut and a[2] == "None" and a[3] is True
+    wrong_side = lambda a: a[0] == "lt" and a[2] == "0" and cut in a[1]
+    found = lambda a: (a[0] == "is" and a[2] == "None" and a[3] is False and a[1] != cut) or \
+        (a[0] == "truth" and a[2] is True and a[1].startswith("self._is_promotable_trial("))
+
+    def scanned(n):         # the scan loop lies on a path with the place: before it (default of the result) or after it
+        return any(cfg.path([n.id], h, skip_labels=("exc",)) is not None or cfg.path([h], n.id, skip_labels=("exc",)) is not None for h in heads)
+    early = [s_ for s_ in none_sites if not s_[3] and not any(wrong_side(a) for a in s_[2]) and not scanned(s_[0])]
+    ok = bool(early) and all(any(no_cut(a) for a in s_[2]) for s_ in early) and any(any(no_cut(a) for a in s_[2]) for s_ in none_sites)
+    rep.put(ok, "S2", "guarded_by", "PromotionRungSystem._find_promotable_trial: 'nothing to promote' without a scan | no cutoff (fewer than two entries)", f,
+            early[0][0].ast if early else None, f"{cut} is None",
+            "a rung with a cutoff is never scanned (nothing is ever promoted), or a rung without one is compared with None")
+    # a candidate is given up only when it is on the wrong side of the cutoff: every None made inside the scan, or after it
+    # under a condition on the candidate
+    rej = [s_ for s_ in none_sites if s_ not in early and (s_[3] or any(wrong_side(a) or found(a) for a in s_[2]))]
+    ok = bool(rej) and all(any(wrong_side(a) for a in s_[2]) and any(found(a) for a in s_[2]) for s_ in rej)
+    rep.put(ok, "S2", "guarded_by", "PromotionRungSystem._find_promotable_trial: the best unpromoted entry is rejected | it is on the wrong side of the cutoff", f,
+            rej[0][0].ast if rej else None, "sign * (metric - cutoff) < 0, and a candidate was found",
+            "the best paused trial is rejected when it should be promoted (or promoted although it is worse than the quantile)")
     g = P.method("PromotionRungSystem", "on_task_schedule")
     nodes = [n for n, c in call_nodes(ctx, g, lambda c: fn_name(c) == "_mark_as_promoted")]
     require_guard(ctx, rep, "S1", g, "PromotionRungSystem.on_task_schedule: a trial is marked as promoted | one was found", nodes,
